@@ -308,6 +308,41 @@ func c14SpecCases(tier string) []any {
 	return out
 }
 
+// c14SpecCorpus: the witnesses of seeded change C14-7 (a draft-07 default for documents without
+// "$schema"), kept in the corpus: a subchart under the alias "web" whose values.schema.json has
+// no "$schema" and says dependentRequired {tlsKey: [tlsCert]}, violated through the user's values,
+// for every operation; and "format" staying an annotation for such a document.
+func c14SpecCorpus() []any {
+	var out []any
+	doc := func() *vSchema {
+		return &vSchema{IsDoc: true, Doc: o("type", "object", "dependentRequired", o("tlsKey", l("tlsCert")),
+			"properties", o("host", o("type", "string", "format", "ipv4")))}
+	}
+	for _, op := range []string{"install", "install-dry", "template", "upgrade", "upgrade-dry"} {
+		for _, bad := range []bool{true, false} {
+			sub := &vChart{Name: "sub", Version: "1.0.0", Values: o("port", 80.0), Schema: doc()}
+			top := &vChart{Name: "top", Version: "1.0.0", Values: o("replicas", 1.0), Charts: []*vChart{sub},
+				Deps: []vDep{{Name: "sub", Version: "1.0.0", Alias: "web"}}}
+			vals := o("web", o("tlsKey", "k", "host", "not-an-address"))
+			if !bad {
+				vals = o("web", o("tlsKey", "k", "tlsCert", "c", "host", "not-an-address"))
+			}
+			out = append(out, c14Case{Kind: "spec", Op: op, Chart: top, Vals: deepCopyVals(vals), Tpl: "corpus/dependentRequired/no-$schema",
+				Expect: []c14Expect{{Chart: "web", Reject: bad, Why: "dependentRequired without $schema (2020-12 by default), format is an annotation"}}})
+		}
+	}
+	for _, bad := range []bool{true, false} {
+		vals := o("tlsKey", "k", "host", "not-an-address")
+		if !bad {
+			vals["tlsCert"] = "c"
+		}
+		out = append(out, c14Case{Kind: "spec", Op: "lint", Chart: &vChart{Name: "top", Version: "1.0.0", Values: o("port", 80.0), Schema: doc()},
+			Vals: deepCopyVals(vals), Tpl: "corpus/dependentRequired/no-$schema",
+			Expect: []c14Expect{{Chart: "top", Reject: bad, Why: "dependentRequired without $schema (2020-12 by default), format is an annotation"}}})
+	}
+	return out
+}
+
 func dialectName(d c14Dialect) string {
 	if d.URL == "" {
 		return "no-$schema"
@@ -418,7 +453,7 @@ func (g *c14DocGen) wrongType() map[string]any {
 
 // a schema that the value v (mostly) satisfies
 func (g *c14DocGen) forVal(v any, depth int) map[string]any {
-	if g.chance(40) {
+	if g.chance(60) {
 		return g.wrongType()
 	}
 	var s map[string]any
@@ -567,10 +602,10 @@ func (g *c14DocGen) decorate(s map[string]any, v any, depth int) map[string]any 
 		}
 		g.defs[name] = s
 		ref := o("$ref", "#/$defs/"+name)
-		if g.chance(3) {
+		if g.chance(5) {
 			ref["maximum"] = -100.0 // a sibling: ignored by draft-07, applied later
 		}
-		if g.chance(6) {
+		if g.chance(15) {
 			ref["const"] = "never" // the library applies "const" next to "$ref" in every draft
 		}
 		return ref
